@@ -144,4 +144,8 @@ example : ((!![(1 / 2 : ℝ)] : Matrix (Fin 1) (Fin 1) ℝ).mulVec ![1] = (1 / 2
   · ext i; fin_cases i; simp [Matrix.mulVec, dotProduct]
   · simp [Matrix.mulVec, dotProduct]
 
+/-- source obligation (regenerated): the named cross-set classes hand EVERY constructor argument on to the general class — a named
+method and the general method given identical arguments are configured identically (only `alpha` is fixed by the class) -/
+theorem src_named_classes_forward_every_argument : Gen.namedClassArgsNotForwarded = [] := by decide
+
 end C10
